@@ -2,7 +2,7 @@
 From Coq Require Import List ZArith Bool String Reals Permutation.
 From PySMT.core Require Import Syntax Sem.
 From PySMT.models Require Import Oracles C10Local Nnf Aig Partition Qelim TimesDist PropTop Prenex.
-From PySMT.proofs Require Import C10Local_proofs Nnf_proofs Aig_proofs Partition_proofs Qelim_proofs TimesDist_proofs PropTop_proofs Prenex_proofs.
+From PySMT.proofs Require Import C10Local_proofs Nnf_proofs Aig_proofs Partition_proofs Qelim_proofs TimesDist_proofs PropTop_proofs Prenex_proofs PrenexEquiv_proofs.
 Import ListNotations.
 
 (* ---------------- NNF ---------------- *)
@@ -67,23 +67,38 @@ Theorem C10_td_equiv_real : forall I t, arith t = true -> kinded_real I t -> eva
 Proof. exact td_equiv_real. Qed.
 Print Assumptions C10_td_equiv_real.
 
-(* ---------------- propagate_toplevel (last step only; see models/PropTop.v) ----------------
-   full clause: forall t sigma I, licensed sigma t = true -> (holds I (propagate_with sigma t) <-> holds I t)
-   is FALSE of the model: *)
+(* ---------------- propagate_toplevel (do_simplify=False; models/PropTop.v) ----------------
+   full clause: forall order t r I, wf_interp I -> boolish t = true -> normal t = true ->
+                  propagate_toplevel order t = Some r -> (holds I r <-> holds I t)
+   is FALSE of the model (the substitution is applied under a binder of the representative): *)
 Theorem C10_proptop_refuted :
-  exists t sigma I, licensed sigma t = true /\ holds I t /\ ~ holds I (propagate_with sigma t).
-Proof. exact proptop_refuted. Qed.
+  exists order t r I, wf_interp I /\ boolish t = true /\ normal t = true /\
+    propagate_toplevel order t = Some r /\ holds I t /\ ~ holds I r.
+Proof. exact proptop_full_refuted. Qed.
 Print Assumptions C10_proptop_refuted.
+(* proved part: quantifier-free inputs (the open finding cannot occur), every node-id order, on the
+   path that builds a substitution.  The other path (two different constants in one class: the
+   result is FALSE) additionally needs "different constant nodes denote different values" and is
+   carried by correspondence + oracle. *)
+Theorem C10_proptop_equiv_partial : forall order t r I,
+  is_qf t = true -> normal t = true -> boolish t = true -> wf_interp I ->
+  propagate_toplevel order t = Some r -> r <> TFalse -> eval I r = eval I t.
+Proof. exact proptop_equiv_partial'. Qed.
+Print Assumptions C10_proptop_equiv_partial.
 
 (* ---------------- prenex normal form ---------------- *)
 Theorem C10_prenex_shape : forall n t r, pq_frag t = true -> prenex n t = Some r -> prenex_shape r = true.
 Proof. exact prenex_shape_thm. Qed.
 Print Assumptions C10_prenex_shape.
-(* full semantic clause (NOT proved; carried by correspondence + reference-evaluator oracle):
-     forall n t r I, wf_interp I -> pq_frag t = true -> boolish t = true ->
-       (no symbol of t is named "FV<k>", k >= n) -> (bound variables have inhabited sorts) ->
-       prenex n t = Some r -> eval I r = eval I t
-   proved part: quantifier-free inputs *)
+(* semantic clause, in full: inputs whose quantifiers occur in Boolean positions only (pq_frag),
+   built by the constructors (normal), binding variables of inhabited first-order sorts
+   (binders_ok), with the fresh-name counter above every name of the input *)
+Theorem C10_prenex_equiv : forall n t r,
+  pq_frag t = true -> normal t = true -> binders_ok t -> (forall v, In v (avars t) -> nbelow n v) ->
+  prenex n t = Some r -> forall I, wf_interp I -> (holds I r <-> holds I t).
+Proof. exact prenex_equiv. Qed.
+Print Assumptions C10_prenex_equiv.
+(* quantifier-free inputs: no side condition on names or sorts *)
 Theorem C10_prenex_equiv_partial : forall n t, is_qf t = true -> pq_frag t = true ->
   exists r, prenex n t = Some r /\ forall I, holds I r <-> holds I t.
 Proof. exact prenex_equiv_partial. Qed.
